@@ -107,7 +107,7 @@ func (x *Exec) step(fr *Frame, ins ssa.Instruction, st *State) {
 		st.heap[ln] = ts.Store(l, r, ts.BV(0, 64))
 		if in.Reserve != nil {
 			n := x.toInt64(x.term(fr, in.Reserve), in.Reserve.Type())
-			x.safety(st, "makemap", in, exprText(x, in.Reserve), x.w.bvsle(ts.BV(0, 64), n))
+			// a negative size hint is treated as 0 by the runtime: no panic
 			x.allocSize(st, in, n, 16)
 		}
 		fr.vals[in] = r
